@@ -1,5 +1,6 @@
 """Length-pin coverage (R03.2 / R05.7 / R18.2): every length-bearing position of a proof type family must be compared
 for equality with something by an Err-returning guard reachable from the entry point."""
+from .facts import parse_path
 from . import flow, cha as cha_mod
 from .facts import split_top
 
@@ -92,7 +93,18 @@ def check(F, ck, rule, labels=None, floor=30):
             alt = [n for n, t in pnames.items() if ty_adt(t) == want]
             if len(alt) == 1:
                 root = alt[0]
-        fl = flow.Flow(F, fn, inline=C.inline_only(names), depth=5)
+        # inline the named validators / verifiers, and any non-trait helper defined in the same file as one of them (a validator
+        # split into sub-validators, a check moved into a helper) - refactorings must not lose pins
+        vfiles = {f.file for f in F.fns.values() if f.name in names and f.crate in ('plonky2', 'starky')}
+
+        def inl(c, d, ev, names=names, vfiles=vfiles):
+            if parse_path(c)[1] in names:
+                return C.targets(c, d)
+            f2 = F.fns.get(c)
+            if f2 is not None and f2.body is not None and not f2.trait and f2.file in vfiles and f2.owner is None:
+                return f2
+            return None
+        fl = flow.Flow(F, fn, inline=inl, depth=5)
         pins = set()
         for e in fl.events:
             if e.kind == 'guard':
